@@ -131,7 +131,7 @@ def run_task(task, R):
 
 REF_SCRIPT = r'''
 import sys, os, json
-sys.path.insert(0, %(verif)r); sys.path.insert(0, '/repo')
+sys.path.insert(0, %(verif)r)
 from mc import repo
 from mc.props import c16
 c = c16.CONFIGS[%(config)r]
